@@ -168,8 +168,51 @@ def run(ctx: Ctx, P, M):
     return ops
 
 
+def many_rows(ctx: Ctx):
+    """retain_graph means the same whatever the number of rows: a graph with saved tensors, m in {65, 100, 130, 200}
+    rows, one call with retain_graph=False (must succeed, like torch.autograd.backward on the twin), then a probe through
+    the graph (must fail on both), resp. retain_graph=True then a second identical call (must succeed on both)"""
+    rng = ctx.rng
+    m = rng.choice([65, 100, 130, 200])
+    chunk = rng.choice([None, None, 64, 128, m])
+    retain = rng.random() < 0.4
+    api = rng.choice(["backward", "mtl_backward"])
+    xv = [float(rng.randint(1, 3)) for _ in range(4)]
+
+    def build():
+        x = torch.tensor(xv, dtype=torch.float64, requires_grad=True)
+        h = (x * x).repeat((m + 3) // 4)[:m]                 # MulBackward saves x
+        if api == "backward":
+            return x, None, h * h, None
+        f = x * x
+        losses = [(f * f).sum() * float(i + 1) for i in range(m)]
+        return x, f, None, losses
+    xa, fa, ya, la = build()
+    xb, fb, yb, lb = build()
+    if api == "backward":
+        ra = attempt(lambda: backward([ya], Sum(), inputs=[xa], retain_graph=retain, parallel_chunk_size=chunk))
+        rb = attempt(lambda: torch.autograd.backward([yb], grad_tensors=[torch.ones_like(yb)], inputs=[xb], retain_graph=retain))
+        pa = attempt(lambda: torch.autograd.grad(ya.sum(), xa, retain_graph=True))
+        pb = attempt(lambda: torch.autograd.grad(yb.sum(), xb, retain_graph=True))
+    else:
+        ra = attempt(lambda: mtl_backward(la, [fa], Sum(), tasks_params=[[] for _ in la], shared_params=[xa],
+                                          retain_graph=retain, parallel_chunk_size=chunk))
+        rb = attempt(lambda: torch.autograd.backward(lb, inputs=[xb], retain_graph=retain))
+        pa = attempt(lambda: torch.autograd.grad(la[0], xa, retain_graph=True))
+        pb = attempt(lambda: torch.autograd.grad(lb[0], xb, retain_graph=True))
+    ctx.case(("many-rows", api, m, chunk, retain), nontrivial=True)
+    ctx.count("many_rows", f"{api}:{'retain' if retain else 'free'}")
+    rp = {"family": "many rows", "api": api, "rows": m, "chunk": chunk, "retain_graph": retain, "torchjd_graph": [ra, pa],
+          "torch_twin": [rb, pb]}
+    if ra != rb or pa != pb:
+        ctx.violation(f"{api} on {m} rows (chunk {chunk}, retain_graph={retain}): call / follow-up probe give {ra} / {pa} on the "
+                      f"torchjd-driven graph and {rb} / {pb} on the twin driven by torch.autograd.backward", rp)
+
+
 def main(ctx: Ctx):
     ctx.lean_gate()
+    for _ in range(6 if ctx.tier == "quick" else 300):
+        many_rows(ctx)
     n = 250 if ctx.tier == "quick" else 40000
     for i in range(n):
         if i % 2:
